@@ -222,11 +222,18 @@ int dh_generate_keypair(uint8_t *priv_out, uint8_t *pub_out, const uint8_t *gen,
     gcry_error_t error;
     gcry_mpi_t genmpi = NULL, modmpi = NULL, privmpi = NULL, pubmpi = NULL;
 
+    /* a private key of (keylen/8)*8 = 0 random bits makes libgcrypt abort the process */
+    if (keylen < 8)
+	return 0;
+
     error = gcry_mpi_scan(&genmpi, GCRYMPI_FMT_USG, gen, gen_len, NULL);
     if (gcry_err_code(error) != GPG_ERR_NO_ERROR)
 	goto out;
     error = gcry_mpi_scan(&modmpi, GCRYMPI_FMT_USG, prime, keylen, NULL);
     if (gcry_err_code(error) != GPG_ERR_NO_ERROR)
+	goto out;
+    /* gcry_mpi_powm() aborts the process on a zero modulus */
+    if (gcry_mpi_cmp_ui(modmpi, 0) == 0)
 	goto out;
 
     privmpi = gcry_mpi_new(keylen);
@@ -257,7 +264,7 @@ int dh_generate_keypair(uint8_t *priv_out, uint8_t *pub_out, const uint8_t *gen,
 
 int dh_compute_shared_key(uint8_t *shared_out, const uint8_t *priv, const uint8_t *pub, const uint8_t *prime, const size_t keylen)
 {
-    int result = 1;
+    int result = 0;
     gcry_error_t error;
     gcry_mpi_t keympi = NULL, modmpi = NULL, privmpi = NULL, pubmpi = NULL;
 
@@ -269,6 +276,8 @@ int dh_compute_shared_key(uint8_t *shared_out, const uint8_t *priv, const uint8_
 	goto out;
     error = gcry_mpi_scan(&modmpi, GCRYMPI_FMT_USG, prime, keylen, NULL);
     if (gcry_err_code(error) != GPG_ERR_NO_ERROR)
+	goto out;
+    if (gcry_mpi_cmp_ui(modmpi, 0) == 0)
 	goto out;
 
     keympi = gcry_mpi_new(keylen);
